@@ -307,6 +307,17 @@ pub fn family(cfg: &Cfg) -> Vec<OpeningHoursExpression> {
             }
         }
     }
+    {
+        // every combination of three (quick) / three and four (thorough) kinds, one body
+        let ts = al::times();
+        let m = &al::modifiers()[0];
+        for ds in al::day_selectors(if cfg.quick() { 3 } else { 4 }) {
+            let kinds = [!ds.year.is_empty(), !ds.monthday.is_empty(), !ds.week.is_empty(), !ds.weekday.is_empty()].iter().filter(|x| **x).count();
+            if kinds >= 3 {
+                fam.push(expr(vec![al::mk_rule(&ds, &ts[1], m)]));
+            }
+        }
+    }
     // two-rule sentences: rule separators
     let r2 = al::r2();
     let step = if cfg.quick() { 7 } else { 1 };
